@@ -1,5 +1,5 @@
 /-
-  C16 helper lemmas, part 6: the explicit idle test of XCLAIM (`Code.claimT`).
+  C16 helper lemmas, part 6: the explicit idle test of XCLAIM and FORCE (`Code.claimT`).
 -/
 import FerrousSpec.Proofs.GroupsHistory
 namespace Ferrous.Grp
@@ -14,34 +14,76 @@ theorem claimOne_false (c : Name) (g : Group) (id : Id) : claimOne c false g id 
 theorem idleOk_within {now last T : Nat} (h : now - last < T) : idleOk now last T false = false := by
   simp [idleOk]; omega
 
-/-- with a uniform outcome of the idle test (min-idle 0, FORCE, or a threshold nothing can reach) the timed claim is
-    the Boolean one -/
-theorem claimLoopT_uniform (c : Name) (now minIdle : Nat) (force b : Bool)
-    (h : ∀ l, idleOk now l minIdle force = b) (ids : List Id) : ∀ (s : Group × Times),
-    (claimLoopT c now minIdle force s ids).1.1 = (claimLoop c b s.1 ids).1 ∧
-    (claimLoopT c now minIdle force s ids).2 = (claimLoop c b s.1 ids).2 := by
+/-- a step without FORCE whose idle test fails changes nothing -/
+theorem claimStepT_refused (q : Quirks) (c : Name) (now T : Nat) (stream : List Id) (s : Group × Times) (id : Id)
+    (h : now - lastOf s.2 id < T) : claimStepT q c now T false stream s id = (s, false) := by
+  unfold claimStepT
+  cases pelFind id s.1.byId with
+  | some e => simp only [Bool.false_and, idleOk_within h, claimOne_false]; simp
+  | none => simp
+
+/-- on the repaired tree FORCE does not replace the idle test either -/
+theorem claimStepT_refused_force (q : Quirks) (hq : q.forceFix = true) (c : Name) (now T : Nat) (force : Bool)
+    (stream : List Id) (s : Group × Times) (id : Id) (e : PEntry) (hp : pelFind id s.1.byId = some e)
+    (h : now - lastOf s.2 id < T) : claimStepT q c now T force stream s id = (s, false) := by
+  unfold claimStepT
+  simp only [hp, hq, Bool.not_true, Bool.and_false, idleOk_within h, claimOne_false]
+  simp
+
+/-- with a uniform outcome of the idle test (min-idle 0, or a threshold nothing can reach) and no row creation
+    (no FORCE, or the pinned tree) the timed claim is the Boolean one -/
+theorem claimLoopT_uniform (q : Quirks) (c : Name) (now minIdle : Nat) (force b : Bool) (stream : List Id)
+    (h : ∀ l, idleOk now l minIdle (force && !q.forceFix) = b) (hnc : (q.forceFix && force) = false)
+    (ids : List Id) : ∀ (s : Group × Times),
+    (claimLoopT q c now minIdle force stream s ids).1.1 = (claimLoop c b s.1 ids).1 ∧
+    (claimLoopT q c now minIdle force stream s ids).2 = (claimLoop c b s.1 ids).2 := by
   induction ids with
   | nil => intro s; exact ⟨rfl, rfl⟩
   | cons id ids ih =>
     intro s
-    simp only [claimLoopT, claimLoop, h]
-    obtain ⟨h1, h2⟩ := ih ((claimOne c b s.1 id).1, if (claimOne c b s.1 id).2 then setLast s.2 id now else s.2)
-    exact ⟨h1, by rw [h2]⟩
+    have hstep : (claimStepT q c now minIdle force stream s id).1.1 = (claimOne c b s.1 id).1 ∧
+        (claimStepT q c now minIdle force stream s id).2 = (claimOne c b s.1 id).2 := by
+      unfold claimStepT
+      cases hf : pelFind id s.1.byId with
+      | some e => simp only [h]; simp
+      | none =>
+        simp only [hnc, Bool.false_and, Bool.false_eq_true, if_false]
+        simp [claimOne, hf]
+    simp only [claimLoopT, claimLoop]
+    obtain ⟨h1, h2⟩ := ih (claimStepT q c now minIdle force stream s id).1
+    rw [h1, h2, hstep.1, hstep.2]
+    exact ⟨rfl, rfl⟩
 
-theorem claimLoopT_agree (c : Name) (now minIdle : Nat) (force : Bool) (ids : List Id) : ∀ (s : Group × Times),
-    AgreeCore s.1 → (alGet c s.1.consumers).isSome →
-    AgreeCore (claimLoopT c now minIdle force s ids).1.1 ∧
-    (claimLoopT c now minIdle force s ids).1.1.totalPending = s.1.totalPending ∧
-    (claimLoopT c now minIdle force s ids).1.1.byId.length = s.1.byId.length := by
+theorem claimStepT_agree (q : Quirks) (c : Name) (now minIdle : Nat) (force : Bool) (stream : List Id)
+    (s : Group × Times) (id : Id) (h : Agree s.1) (hc : (alGet c s.1.consumers).isSome) :
+    Agree (claimStepT q c now minIdle force stream s id).1.1 ∧
+    (alGet c (claimStepT q c now minIdle force stream s id).1.1.consumers).isSome ∧
+    (claimStepT q c now minIdle force stream s id).1.1.lastDelivered = s.1.lastDelivered := by
+  unfold claimStepT
+  cases hf : pelFind id s.1.byId with
+  | some e =>
+    simp only
+    obtain ⟨f1, f2, f3, f4⟩ := claimOne_fields c (idleOk now (lastOf s.2 id) minIdle (force && !q.forceFix)) s.1 id
+    exact ⟨{ toAgreeCore := agreeCore_claimOne h.toAgreeCore c _ id hc, total := by rw [f1, f3]; exact h.total },
+           f4 hc, f2⟩
+  | none =>
+    simp only
+    split
+    · obtain ⟨n, hn⟩ := Option.isSome_iff_exists.mp hc
+      exact ⟨agree_addOne h hn (pelFind_none.mp hf), by rw [addOne_consumer c s.1 id hn]; rfl, rfl⟩
+    · exact ⟨h, hc, rfl⟩
+
+theorem claimLoopT_agree (q : Quirks) (c : Name) (now minIdle : Nat) (force : Bool) (stream : List Id)
+    (ids : List Id) : ∀ (s : Group × Times), Agree s.1 → (alGet c s.1.consumers).isSome →
+    Agree (claimLoopT q c now minIdle force stream s ids).1.1 ∧
+    (claimLoopT q c now minIdle force stream s ids).1.1.lastDelivered = s.1.lastDelivered := by
   induction ids with
-  | nil => intro s h _; exact ⟨h, rfl, rfl⟩
+  | nil => intro s h _; exact ⟨h, rfl⟩
   | cons id ids ih =>
     intro s h hc
     simp only [claimLoopT]
-    obtain ⟨f1, _, f3, f4⟩ := claimOne_fields c (idleOk now (lastOf s.2 id) minIdle force) s.1 id
-    obtain ⟨h1, h2, h3⟩ := ih ((claimOne c (idleOk now (lastOf s.2 id) minIdle force) s.1 id).1,
-      if (claimOne c (idleOk now (lastOf s.2 id) minIdle force) s.1 id).2 then setLast s.2 id now else s.2)
-      (agreeCore_claimOne h c _ id hc) (f4 hc)
-    exact ⟨h1, by rw [h2, f1], by rw [h3, f3]⟩
+    obtain ⟨a1, a2, a3⟩ := claimStepT_agree q c now minIdle force stream s id h hc
+    obtain ⟨b1, b2⟩ := ih _ a1 a2
+    exact ⟨b1, by rw [b2, a3]⟩
 
 end Ferrous.Grp
